@@ -69,7 +69,7 @@ def check(R, F, P, cfg):
         R.inst("R14.1", "only-closure-between-alloc-and-write", not others, "calls that may reach user code between the allocation and the write (other than the closure): %s" % ([x.where() for x in others] or "none"), where=nc.span, cfg=cfg)
         # the strong count is 0 while the closure runs: decrement from the constant initial 1, no increment in between
         incs_between = [x for x in S.calls_to(CM + "increment_counter") if x.idx in S.reachable(sdec[0], exclude=("ui", "u"), stop=lambda y: y is clo[0]) and x is not sinc[0]]
-        R.inst("R14.1", "count-zero-in-closure", not incs_between and F.const("counter_marker::INITIAL_VALUE") == 1, "no strong increment between the decrement and the closure; initial count constant = %s" % F.const("counter_marker::INITIAL_VALUE"), where=nc.span, cfg=cfg)
+        R.inst("R14.1", "count-zero-in-closure", not incs_between and 1 in (word_layout(F)["INIT"] or []), "no strong increment between the decrement and the closure; initial count values = %s" % word_layout(F)["INIT"], where=nc.span, cfg=cfg)
 
     c07.check_uninit_drop(R, F, P, cfg, "R14.2")
     R.doc("R14.2", "R-UNINIT-DROP: a value whose type's Drop assumes an initialised MaybeUninit is never droppable on the unwind path of a call that may reach user code")
